@@ -1864,3 +1864,129 @@ package trzsz
 //@   loop 2
 //@     invariant [C02] pos == data.index
 //@ end
+
+//@ # The chunking writer of the pipelined sender: the record handed to the sending stage holds the chunk
+//@ # itself (cursor at 0) and, ready framed, "#DATA:" + (binary mode: the decimal LENGTH OF THAT CHUNK and
+//@ # the newline, then the chunk; otherwise the chunk, then the newline) - the announced length is the
+//@ # length of the escaped chunk that follows, byte for byte.
+//@ func sendDataWriter.deliver
+//@   assigns bufLen, bufCap, bufArr, elemsof("byte")
+//@   ensures forall q int {bufLen[q]} :: q <= old(alloc()) ==> bufLen[q] == old(bufLen)[q]
+//@   before send:b.sendDataChan assert [C04,C02] p0.index == 0 && same(p0.data, data)
+//@   before strconv.Itoa assert [C04] p0 == len(data)
+//@   before send:b.sendDataChan assert [C04] b.transfer.transferConfig.Binary ==> \
+//@       len(p0.buffer) == 6 + len(result_of("strconv.Itoa", 0, 0)) + len(b.transfer.transferConfig.Newline) + len(data) && \
+//@       (forall k int {p0.buffer[k]} :: 0 <= k && k < len(result_of("strconv.Itoa", 0, 0)) ==> \
+//@           p0.buffer[6 + k] == result_of("strconv.Itoa", 0, 0)[k]) && \
+//@       (forall k int {data[k]} :: 0 <= k && k < len(data) ==> \
+//@           p0.buffer[6 + len(result_of("strconv.Itoa", 0, 0)) + len(b.transfer.transferConfig.Newline) + k] == data[k])
+//@   before send:b.sendDataChan assert [C04] !b.transfer.transferConfig.Binary ==> \
+//@       len(p0.buffer) == 6 + len(data) + len(b.transfer.transferConfig.Newline)
+//@   before send:b.sendDataChan assert [C04] !b.transfer.transferConfig.Binary ==> \
+//@       (forall k int {data[k]} :: 0 <= k && k < len(data) ==> p0.buffer[6 + k] == data[k])
+//@ end
+
+//@ # Write: every byte of p goes, in order, either into a delivered chunk or into the pending buffer -
+//@ # counted: (bytes delivered by this call) + (bytes pending) == (bytes pending before) + (bytes consumed);
+//@ # each delivered chunk is the whole pending buffer, and the next piece is taken from where the last ended.
+//@ func sendDataWriter.Write
+//@   requires b.buffer != nil
+//@   ghostvar delivered int = 0
+//@   after sendDataWriter.deliver set delivered = delivered + len(p0)
+//@   ghostvar refused bool = false
+//@   after sendDataWriter.deliver set refused = refused || !r0
+//@   before sendDataWriter.deliver assert [C02] len(p0) == bufLen[b.buffer] && !refused
+//@   loop 1
+//@     invariant [C02] b.buffer != nil && 0 <= m && m + len(p) == len(old(p)) && ref(p) == ref(old(p)) && off(p) == off(old(p)) + m
+//@     invariant [C02] delivered + bufLen[b.buffer] == old(bufLen[b.buffer]) + m && !refused
+//@   # (a refused delivery means the pipeline was cancelled: the error is the context's, assumed non-nil then)
+//@   ensures [C02] r1 == nil && !refused ==> r0 == len(p) && delivered + bufLen[b.buffer] == old(bufLen[b.buffer]) + len(p)
+//@ end
+
+//@ # The receiving side's chunk reader: bytes are handed out in order, none twice, none skipped - from the
+//@ # pending chunk if there is one, else from the chunk just taken from the channel; what was not handed
+//@ # out stays pending (same array, cursor advanced by exactly the number of bytes returned).
+//@ func recvDataReader.Read
+//@   ghostvar gref int = 0
+//@   ghostvar goff int = 0
+//@   ghostvar glen int = 0
+//@   after recv:r.dataChan set gref = ref(r0)
+//@   after recv:r.dataChan set goff = off(r0)
+//@   after recv:r.dataChan set glen = len(r0)
+//@   requires len(r.buf) > 0 ==> ref(p) != ref(r.buf)
+//@   assigns r.buf, r.eof, elems(p)
+//@   ensures [C02] r1 == nil && old(len(r.buf)) > 0 ==> r0 == min(len(p), old(len(r.buf))) && \
+//@       len(r.buf) == old(len(r.buf)) - r0 && (len(r.buf) > 0 ==> ref(r.buf) == old(ref(r.buf)) && off(r.buf) == old(off(r.buf)) + r0) && \
+//@       (forall k int {p[k]} :: 0 <= k && k < r0 ==> p[k] == old(r.buf[k]))
+//@   ensures [C02] r1 == nil && old(len(r.buf)) == 0 && !old(r.eof) ==> r0 == min(len(p), glen) && \
+//@       len(r.buf) == glen - r0 && (len(r.buf) > 0 ==> ref(r.buf) == gref && off(r.buf) == goff + r0) && \
+//@       (ref(p) != gref ==> (forall k int {p[k]} :: 0 <= k && k < r0 ==> p[k] == old(heap("byte"))[gref][goff + k]))
+//@   ensures [C02] r1 != nil ==> r0 == 0 && (old(len(r.buf)) > 0 ==> same(r.buf, old(r.buf)))
+//@ end
+
+//@ # The top-level loops.  Success is returned only if every file that was opened went through its digest
+//@ # check successfully (counted: files opened == digest checks passed, at every iteration and at the
+//@ # successful return), and the digest checked is the one the data stage of that same file returned.
+//@ func trzszTransfer.recvFiles
+//@   ghostvar opened int = 0
+//@   ghostvar verified int = 0
+//@   after trzszTransfer.recvFileNameV3 set opened = opened + ite(r2 == nil && r0 != nil, 1, 0)
+//@   after trzszTransfer.recvFileName set opened = opened + ite(r2 == nil && r0 != nil, 1, 0)
+//@   after trzszTransfer.recvFileMD5 set verified = verified + ite(r0 == nil, 1, 0)
+//@   ghostvar dref int = 0
+//@   ghostvar dlen int = 0
+//@   ghostvar dataOK bool = false
+//@   after trzszTransfer.recvFileDataV2 set dref = ref(r0)
+//@   after trzszTransfer.recvFileDataV2 set dlen = len(r0)
+//@   after trzszTransfer.recvFileDataV2 set dataOK = r1 == nil
+//@   after trzszTransfer.recvFileData set dref = ref(r0)
+//@   after trzszTransfer.recvFileData set dlen = len(r0)
+//@   after trzszTransfer.recvFileData set dataOK = r1 == nil
+//@   after trzszTransfer.recvFileMD5 set dataOK = false
+//@   before trzszTransfer.recvFileMD5 assert [C02] opened == verified + 1 && dataOK && ref(p0) == dref && len(p0) == dlen
+//@   loop 1
+//@     invariant [C02] opened == verified
+//@   ensures [C02] r1 == nil ==> opened == verified
+//@ end
+//@ func trzszTransfer.sendFiles
+//@   ghostvar opened int = 0
+//@   ghostvar verified int = 0
+//@   after trzszTransfer.sendFileNameV3 set opened = opened + ite(r2 == nil && r0 != nil, 1, 0)
+//@   after trzszTransfer.sendFileName set opened = opened + ite(r2 == nil && r0 != nil, 1, 0)
+//@   after trzszTransfer.sendFileMD5 set verified = verified + ite(r0 == nil, 1, 0)
+//@   ghostvar dref int = 0
+//@   ghostvar dlen int = 0
+//@   ghostvar dataOK bool = false
+//@   after trzszTransfer.sendFileDataV2 set dref = ref(r0)
+//@   after trzszTransfer.sendFileDataV2 set dlen = len(r0)
+//@   after trzszTransfer.sendFileDataV2 set dataOK = r1 == nil
+//@   after trzszTransfer.sendFileData set dref = ref(r0)
+//@   after trzszTransfer.sendFileData set dlen = len(r0)
+//@   after trzszTransfer.sendFileData set dataOK = r1 == nil
+//@   after trzszTransfer.sendFileMD5 set dataOK = false
+//@   before trzszTransfer.sendFileMD5 assert [C02] opened == verified + 1 && dataOK && ref(p0) == dref && len(p0) == dlen
+//@   loop 1
+//@     invariant [C02] opened == verified
+//@   ensures [C02] r1 == nil ==> opened == verified
+//@ end
+
+//@ # The pipelined data phase ends in success only through the success signal of its last stage (which
+//@ # that stage gives only when the final step equals the announced size - see pipelineSendAck /
+//@ # pipelineRecvFinalAck): a cancelled pipeline never returns a digest, and the digest returned is the
+//@ # one the digest stage handed over.
+//@ func trzszTransfer.recvFileDataV2
+//@   ghostvar succ bool = false
+//@   ghostvar dref int = 0
+//@   after recv:ctx.succ set succ = true
+//@   after recv:md5DigestChan set dref = ref(r0)
+//@   ensures [C02] succ ==> len(r0) > 0 ==> ref(r0) == dref
+//@   ensures [C02] !succ ==> len(r0) == 0
+//@ end
+//@ func trzszTransfer.sendFileDataV2
+//@   ghostvar succ bool = false
+//@   ghostvar dref int = 0
+//@   after recv:ctx.succ set succ = true
+//@   after recv:md5DigestChan set dref = ref(r0)
+//@   ensures [C02] succ ==> len(r0) > 0 ==> ref(r0) == dref
+//@   ensures [C02] !succ ==> len(r0) == 0
+//@ end
